@@ -272,8 +272,9 @@ let abortive : int list ref = ref []
 let parse_e2e (o : string) : e2e_op =
   let rest = String.sub o 1 (String.length o - 1) in
   match o.[0] with
-  | 'c' | 'A' | 'X' | 'Y' -> XConnect (nat_of_int (int_of_string rest))   (* X: and the service of that listener fails its readiness check *)
-  | 'f' | 'F' -> XFinish (n_of_int (int_of_string rest))
+  | 'c' | 'A' | 'X' | 'Y' | 'S' -> XConnect (nat_of_int (int_of_string rest))   (* X: and the service of that listener fails its readiness check;
+                                                                                  S: the client sends nothing and closes its sending half at once *)
+  | 'f' | 'F' | 'z' -> XFinish (n_of_int (int_of_string rest))                     (* z: the service call ends by a panic inside its future *)
   | 'P' -> XPause
   | 'R' -> XResume
   | 'Q' -> XBurst (List.map (fun c -> c = 'R') (List.init (String.length rest) (String.get rest)))
@@ -446,14 +447,19 @@ let bldgen (line : string) : string =
     (* real time passes between the ops of the implementation run: the 500 ms back-off is left at once *)
     (* ... except for one Pause, whose effect does not depend on when the deadline passes: nothing is observable until Resume *)
     (match (if backoff then (if has 'c' && not st.paused && rand 4 = 0 then `P else `T) else pick_from !c) with
-     | `C -> emit (Printf.sprintf "c%d" (rand nl))
+     | `C -> let tok = rand nl in
+       (* a silent, half-closed client: TCP listeners only (the harness' service recognises it by its port) *)
+       if has 's' && not (List.nth kinds tok) && rand 3 = 0 then emit (Printf.sprintf "S%d" tok) else emit (Printf.sprintf "c%d" tok)
      | `A -> emit (Printf.sprintf "A%d" (rand nl))
      | `D -> emit "D"
      | `Block -> emit "B" | `Unblock -> (armed := false; emit "b")
      | `X -> let toks = List.filter own_call (List.init nl (fun i -> i)) in
        emit (Printf.sprintf "%s%d" (if rand 3 = 0 then "Y" else "X") (pick_from toks))
      | `Arm -> let toks = List.filter own_call (List.init nl (fun i -> i)) in armed := true; emit (Printf.sprintf "x%d" (pick_from toks))
-     | `F -> emit (Printf.sprintf "f%d" (pick_from picked))
+     | `F -> let c = pick_from picked in
+       (* the service call ends by a panic inside its future (contained by the runtime: the worker lives on, the connection's guard
+          is dropped while the thread unwinds) — to the server the same as an ordinary end *)
+       if has 'z' && rand 3 = 0 then emit (Printf.sprintf "z%d" c) else emit (Printf.sprintf "f%d" c)
      | `P -> emit "P" | `R -> emit "R"
      | `Q -> let shapes = if st.paused then [| "PR"; "PR"; "PPR"; "RP"; "RPR"; "PRP"; "RR" |] else [| "RP"; "RP"; "RRP"; "PR"; "PRP"; "RPR"; "PP" |] in
        emit ("Q" ^ shapes.(rand (Array.length shapes)))
